@@ -142,9 +142,13 @@ def main() -> int:
             to_replay = getattr(check, "to_replay", None)
             scn_r = to_replay(scn, v0) if to_replay else scn
 
-            def fails(cand, clause=clause):
+            what = v0.get("what")
+
+            def fails(cand, clause=clause, what=what):
+                # same clause *and* same kind of failure, so that shrinking cannot
+                # drift to another way of failing the clause
                 r = run_one(check, cand)
-                return clause in r.clauses()
+                return any(v["clause"] == clause and v.get("what") == what for v in r.violations)
 
             t0 = time.monotonic()
             try:
@@ -161,7 +165,7 @@ def main() -> int:
             except Exception:  # noqa: BLE001
                 emit({"type": "harness_error", "i": i, "seed": seed, "trace": traceback.format_exc()[-4000:]})
                 return 3
-            vs = [v for v in rs.violations if v["clause"] == clause]
+            vs = [v for v in rs.violations if v["clause"] == clause and v.get("what") == what]
             small["expect"] = {"clause": clause, "digest": getattr(rs, "digest", None)}
             small["violation"] = vs[0] if vs else None
             out_dir = os.path.join(cfg.get("replay_dir") or os.path.join(VERIF, "replays", cfg["check"]))
